@@ -40,14 +40,14 @@ class ColrPicture:
         cb=cl.clips.get(glyph)
         return None if cb is None else (cb.xMin,cb.yMin,cb.xMax,cb.yMax)
     # returns premultiplied rgba
-    def at(self,glyph,p):
+    def at(self,glyph,p,clip=True):
         if self.colr.version==0:
             out=(0,0,0,0)
             for layer in self.colr.ColorLayers.get(glyph,[]):
                 if self.outline(layer.name).contains(p):
                     out=over(premul(self.color(layer.colorID,1.0)),out)
             return out
-        cb=self.clipbox(glyph)
+        cb=self.clipbox(glyph) if clip else None
         if cb is not None and not (cb[0]<=p[0]<=cb[2] and cb[1]<=p[1]<=cb[3]): return (0,0,0,0)
         paint=self.base_paint(glyph)
         if paint is None: return (0,0,0,0)
